@@ -18,7 +18,7 @@ def refute_in_runs(runs, key):
     """Witness that exception `key` leaves the entry of `runs` (unrolled run; summary raises are refuted in
     their own unit)."""
     for p in runs.unr:
-        if p.outcome != 'raise' or exc_key(p.value.cls) != key or p.tainted:
+        if p.outcome != 'raise' or exc_key(p.value.cls) != key or p.tainted or p.unknowns:
             continue
         exc = p.value
         inner = None
